@@ -11,7 +11,9 @@ import (
 	"github.com/emirpasic/gods/v2/maps/linkedhashmap"
 	"github.com/emirpasic/gods/v2/maps/treebidimap"
 	"github.com/emirpasic/gods/v2/maps/treemap"
+	"github.com/emirpasic/gods/v2/trees/avltree"
 	"github.com/emirpasic/gods/v2/trees/btree"
+	"github.com/emirpasic/gods/v2/trees/redblacktree"
 )
 
 // ---- loads (C11/C12) -------------------------------------------------------------------------------
@@ -147,7 +149,7 @@ func (s *kvSubj[K]) enum() *keyEnumA[K] {
 
 // ---- read-only catalogue (C18) -----------------------------------------------------------------------------
 
-var kvReads = []string{"Get", "Get", "GetKey", "Size", "Empty", "Keys", "Values", "String", "ToJSON", "MarshalJSON", "Floor", "Ceiling", "Min", "Max", "Height",
+var kvReads = []string{"Get", "Get", "Nodes", "GetKey", "Size", "Empty", "Keys", "Values", "String", "ToJSON", "MarshalJSON", "Floor", "Ceiling", "Min", "Max", "Height",
 	"Walk", "WalkBack", "NextTo", "Each", "Any", "All", "Find", "Select", "Map", "Sorted"}
 
 func (s *kvSubj[K]) GenRead(r *Rng, id int) Op {
@@ -185,6 +187,8 @@ func (s *kvSubj[K]) DoRead(op Op) string {
 		}
 		k, f := bm.GetKey(s.vd.At(a[1]))
 		return fmt.Sprintf("%s,%v", d.Str(k), f)
+	case "Nodes":
+		return s.nodes(s.anyKey(a[0]))
 	case "Size":
 		return strconv.Itoa(s.m.Size())
 	case "Empty":
@@ -303,7 +307,7 @@ func (s *kvSubj[K]) DoRead(op Op) string {
 // ---- hostile catalogue (C17) -----------------------------------------------------------------------------------
 
 func (s *kvSubj[K]) GenHostile(r *Rng, id int) Op {
-	names := []string{"Put", "Put", "Put", "Remove", "Remove", "Clear", "Get", "GetKey", "Keys", "Values", "String", "ToJSON", "Nav", "Iter", "Enum", "Sorted", "Size"}
+	names := []string{"Put", "Put", "Put", "Remove", "Remove", "Clear", "Get", "GetKey", "Keys", "Values", "String", "ToJSON", "Nav", "Nodes", "Iter", "Enum", "Sorted", "Size"}
 	n := names[r.Intn(len(names))]
 	return Op{ID: id, N: n, A: []int{r.Intn(len(s.d.Tab) + len(s.d.Probes)), r.Intn(len(s.vd.Tab)), r.Intn(1 << 20)}}
 }
@@ -341,6 +345,8 @@ func (s *kvSubj[K]) DoHostile(op Op) {
 		s.m.Empty()
 	case "Sorted":
 		containers.GetSortedValues[string](s.m)
+	case "Nodes":
+		s.nodes(k)
 	case "Nav":
 		if nav := s.nav(); nav != nil {
 			nav.min()
@@ -390,3 +396,61 @@ func (s *kvSubj[K]) EncodeModel() []byte {
 	return []byte(sb.String())
 }
 func (s *kvSubj[K]) AdoptModel(from Subject) { s.ents = slices.Clone(from.(*kvSubj[K]).ents) }
+
+// nodes exercises the less used exported node-level API for key k and returns a canonical rendering:
+// GetNode, Node.Size/String, AVL Node.Prev/Next, red-black IteratorAt, iterator Node(), B-tree
+// Entry.String and LeftValue/RightValue.
+func (s *kvSubj[K]) nodes(k K) string {
+	d := s.d
+	var sb strings.Builder
+	switch t := s.m.(type) {
+	case *redblacktree.Tree[K, string]:
+		n := t.GetNode(k)
+		if n == nil {
+			return "nil"
+		}
+		fmt.Fprintf(&sb, "node=%s:%q str=%s size=%d rootsize=%d ", d.Str(n.Key), n.Value, n.String(), n.Size(), t.Root.Size())
+		it := t.IteratorAt(n)
+		fmt.Fprintf(&sb, "at=%s ", d.Str(it.Key()))
+		for i := 0; i < 3 && it.Next(); i++ {
+			fmt.Fprintf(&sb, ">%s(%v) ", d.Str(it.Key()), it.Node() != nil)
+		}
+		it = t.IteratorAt(n)
+		for i := 0; i < 3 && it.Prev(); i++ {
+			fmt.Fprintf(&sb, "<%s ", d.Str(it.Key()))
+		}
+	case *avltree.Tree[K, string]:
+		n := t.GetNode(k)
+		if n == nil {
+			return "nil"
+		}
+		fmt.Fprintf(&sb, "node=%s:%q str=%s size=%d rootsize=%d ", d.Str(n.Key), n.Value, n.String(), n.Size(), t.Root.Size())
+		for i, x := 0, n.Next(); i < 3 && x != nil; i, x = i+1, x.Next() {
+			fmt.Fprintf(&sb, ">%s ", d.Str(x.Key))
+		}
+		for i, x := 0, n.Prev(); i < 3 && x != nil; i, x = i+1, x.Prev() {
+			fmt.Fprintf(&sb, "<%s ", d.Str(x.Key))
+		}
+		it := t.Iterator()
+		if it.Next() {
+			fmt.Fprintf(&sb, "first=%s(%v) ", d.Str(it.Key()), it.Node() != nil)
+		}
+	case *btree.Tree[K, string]:
+		n := t.GetNode(k)
+		if n == nil {
+			return "nil"
+		}
+		fmt.Fprintf(&sb, "entries=%d nodes=%d rootnodes=%d ", len(n.Entries), n.Size(), t.Root.Size())
+		for _, e := range n.Entries {
+			sb.WriteString(e.String() + ",")
+		}
+		fmt.Fprintf(&sb, " lv=%v rv=%v", t.LeftValue(), t.RightValue())
+		it := t.Iterator()
+		if it.Next() {
+			fmt.Fprintf(&sb, " first=%s(%v)", d.Str(it.Key()), it.Node() != nil)
+		}
+	default:
+		return "n/a"
+	}
+	return sb.String()
+}
